@@ -1,6 +1,7 @@
 (* C01 — the state only grows: every evaluation, in every mode, extends the frames heap and the trace (invariant
    [ext]); hence the cell a scope denotes for a name never changes in the reference evaluator. *)
 From C01 Require Import Model.
+Arguments apply_fn : simpl never.
 
 Definition names (fr : frame) : list string := map fst fr.
 Definition prefix {A} (l1 l2 : list A) : Prop := exists t, l2 = l1 ++ t.
@@ -150,11 +151,20 @@ Proof.
   - apply assign_ext; assumption.
   - apply IH; assumption.
 Qed.
+Lemma ev_defaults_ext : forall os st0 st sc f, ext st0 st -> ext st0 (snd (ev_defaults m ev st sc f os)).
+Proof.
+  induction os as [|[x e] os IH]; intros; simpl; ext_go; apply IH; ext_go.
+Qed.
 Lemma apply_fn_ext : forall st0 st c args, ext st0 st -> ext st0 (snd (apply_fn m ev st c args)).
 Proof.
-  intros st0 st [ps body csc|p] args H; simpl; ext_go.
-  apply ev_seq_ext.
-  change (mkSt (frames st ++ [mk_frame ps args]) (funs st) (trace st)) with (snd (alloc st (mk_frame ps args))). ext_go.
+  intros st0 st [ps os body csc|p] args H; unfold apply_fn; [|simpl; exact H].
+  destruct (List.length ps + List.length os <? List.length args); [exact H|].
+  destruct (List.length args <? List.length ps); [exact H|].
+  assert (E1 : ext st0 (snd (alloc st (mk_frame (ps ++ map fst os) args)))) by (apply ext_alloc; exact H).
+  destruct (alloc st (mk_frame (ps ++ map fst os) args)) as [f st1]. simpl in E1.
+  destruct (drop os (List.length args - List.length ps)) as [|d ds].
+  - apply ev_seq_ext; exact E1.
+  - apply ext_bind'; [apply ev_defaults_ext; exact E1|]. intros. apply ev_seq_ext; assumption.
 Qed.
 Lemma ev_map_ext : forall rows st0 st c, ext st0 st -> ext st0 (snd (ev_map m ev st c rows)).
 Proof.
